@@ -119,6 +119,7 @@ type FuncV struct {
 	native string // builtin or native name
 	recv   Value  // bound receiver for native method values
 	hasRcv bool
+	sig    *types.Signature // for no-op methods of native interface values
 }
 
 type ChanObj struct {
